@@ -23,7 +23,10 @@ def applyOp (d : DSt) (op : Prof.Op) : DSt :=
   let deliv := match op with
     | .ev e => bumpA (e.b, e.l) (Prof.delivStep d.s op e.b e.l) d.deliv
     | _ => d.deliv
-  let drops := d.s.core.regs.eraseDups.foldl (fun acc k => bumpA k (Prof.dropStep d.s op k.1 k.2) acc) d.drops
+  -- `dropStep` is zero except for the two disabling operations: only then are the registered keys scanned
+  let drops := match op with
+    | .disable _ | .disableBC _ => d.s.core.regs.eraseDups.foldl (fun acc k => bumpA k (Prof.dropStep d.s op k.1 k.2) acc) d.drops
+    | _ => d.drops
   let threads := match op.thread with
     | some t => if t ∈ d.threads then d.threads else d.threads ++ [t]
     | none => d.threads
